@@ -24,15 +24,15 @@ Proof. vm_compute. reflexivity. Qed.
 Print Assumptions C15_gen_tables_agree.
 
 (** The off-by-one table: all six comparators, both operand orders. [len(x) op c] (resp.
-    [c op len(x)]) holds of a length [n] exactly when the extracted constraint admits
+    [c op len(x)]) holds of a length [n] exactly when the extracted constraint allows
     [n]; [!=] extracts nothing. *)
 Theorem C15_match_len_table_left : forall op c k,
-  lc_of_left op c = Some k -> forall n, cmp_holds op n c <-> admits k n.
+  lc_of_left op c = Some k -> forall n, cmp_holds op n c <-> allows k n.
 Proof. exact lc_of_left_sound. Qed.
 Print Assumptions C15_match_len_table_left.
 
 Theorem C15_match_len_table_right : forall op c k,
-  lc_of_right op c = Some k -> forall n, cmp_holds op c n <-> admits k n.
+  lc_of_right op c = Some k -> forall n, cmp_holds op c n <-> allows k n.
 Proof. exact lc_of_right_sound. Qed.
 Print Assumptions C15_match_len_table_right.
 
@@ -40,11 +40,11 @@ Print Assumptions C15_match_len_table_right.
     for property [p] — a comparison of [len(self.p)] with an integer constant, bare or
     guarded by [self.p is None or ...] / [not (self.p is not None) or ...] on the same
     property — evaluates (Python short-circuit semantics, [evalb]) to true exactly when
-    [self.p] is [None] or its length is admitted by the extracted constraint. *)
+    [self.p] is [None] or its length is allowed by the extracted constraint. *)
 Theorem C15_match_len_sound : forall body p k,
   match_len_invariant body = Some (p, k) ->
   forall env b, evalb env body = Some b ->
-  (b = true <-> (forall n, env p = Some n -> admits k n)).
+  (b = true <-> (forall n, env p = Some n -> allows k n)).
 Proof. exact match_len_invariant_sound. Qed.
 Print Assumptions C15_match_len_sound.
 
@@ -68,15 +68,15 @@ Theorem C15_match_len_unfixed_refuted :
   exists body p k env,
     match_len_invariant_unfixed body = Some (p, k)
     /\ evalb env body = Some true
-    /\ ~ (forall n, env p = Some n -> admits k n).
+    /\ ~ (forall n, env p = Some n -> allows k n).
 Proof. exact match_len_unfixed_refuted. Qed.
 Print Assumptions C15_match_len_unfixed_refuted.
 
-(** [reduce_sound]: the reduced range admits exactly the lengths admitted by every
+(** [reduce_sound]: the reduced range allows exactly the lengths allowed by every
     constraint of the list (lengths are >= 0; a minimum <= 0 is dropped). *)
 Theorem C15_reduce_sound : forall cs r,
   reduce cs = Ok r ->
-  forall n, 0 <= n -> ((forall c, In c cs -> admits c n) <-> in_range r n).
+  forall n, 0 <= n -> ((forall c, In c cs -> allows c n) <-> in_range r n).
 Proof. exact reduce_sound. Qed.
 Print Assumptions C15_reduce_sound.
 
@@ -90,12 +90,12 @@ Print Assumptions C15_reduce_nonvacuous.
 (** [reduce_err_unsat] and its converse: an error is reported exactly when no length
     satisfies all constraints. *)
 Theorem C15_reduce_err_unsat : forall cs errs,
-  reduce cs = Err errs -> ~ exists n, 0 <= n /\ forall c, In c cs -> admits c n.
+  reduce cs = Err errs -> ~ exists n, 0 <= n /\ forall c, In c cs -> allows c n.
 Proof. exact reduce_err_unsat. Qed.
 Print Assumptions C15_reduce_err_unsat.
 
 Theorem C15_reduce_unsat_err : forall cs,
-  (~ exists n, 0 <= n /\ forall c, In c cs -> admits c n) ->
+  (~ exists n, 0 <= n /\ forall c, In c cs -> allows c n) ->
   exists errs, reduce cs = Err errs.
 Proof. exact reduce_unsat_err. Qed.
 Print Assumptions C15_reduce_unsat_err.
@@ -122,7 +122,7 @@ Print Assumptions C15_reduce_ok_wf.
     precondition; [len < 0] was accepted as an (empty) range. *)
 Theorem C15_reduce_unfixed_refuted :
   (exists cs errs, reduce_unfixed cs = Err errs
-                   /\ exists n, 0 <= n /\ forall c, In c cs -> admits c n)
+                   /\ exists n, 0 <= n /\ forall c, In c cs -> allows c n)
   /\ (exists cs k, reduce_unfixed cs = Crash k)
   /\ (exists cs r, reduce_unfixed cs = Ok r /\ ~ exists n, 0 <= n /\ in_range r n).
 Proof. exact reduce_unfixed_refuted. Qed.
@@ -251,7 +251,7 @@ Print Assumptions C15_unrecognised_examples.
       infer m = Ok res -> for every class C of m, property p of C (own or inherited) and
       level i: for all n >= 0, in_range_opt (k_len (res C (p, i))) n <->
       every invariant of C, of an ancestor of C, or of the constrained-primitive chain of
-      the type at level i, that is recognised for p, admits n; likewise for the pattern
+      the type at level i, that is recognised for p, allows n; likewise for the pattern
       list (as a set) and the literal sets; and infer m = Err _ when some such
       conjunction is unsatisfiable; never Crash.
 
